@@ -7,8 +7,16 @@
 #define VF_DECL_FOP(kind, site)
 #define F_ADD(s,a,b) ((a)+(b))
 #define F_SUB(s,a,b) ((a)-(b))
+#ifdef VF_OPAQUE_MULDIV
+/* hybrid mode: add/sub/compare/floor/conversions precise, multiplication and division delegated to a harness hook
+   (arbitrary result constrained and recorded by the harness) */
+double vf_muldiv(int site, int isdiv, double a, double b);
+#define F_MUL(s,a,b) vf_muldiv(s, 0, a, b)
+#define F_DIV(s,a,b) vf_muldiv(s, 1, a, b)
+#else
 #define F_MUL(s,a,b) ((a)*(b))
 #define F_DIV(s,a,b) ((a)/(b))
+#endif
 #define F_ADDF(s,a,b) ((a)+(b))
 #define F_SUBF(s,a,b) ((a)-(b))
 #define F_MULF(s,a,b) ((a)*(b))
@@ -56,7 +64,9 @@ static inline double vf_c_atan2(double y, double x) {
 }
 static inline double vf_c_hypot(double x, double y) { if (isinf(x) || isinf(y)) return VF_INF; if (isnan(x) || isnan(y)) return VF_NAN; double r = nondet_double(); __CPROVER_assume(r >= 0.0); __CPROVER_assume(r >= __builtin_fabs(x) && r >= __builtin_fabs(y)); return r; }
 static inline double vf_c_binary(double x, double y) { if (isnan(x) || isnan(y)) return VF_NAN; return nondet_double(); }
-static inline double vf_c_pow(double x, double y) { if (y == 0.0 || x == 1.0) return 1.0; if (isnan(x) || isnan(y)) return VF_NAN; double r = nondet_double(); if (x > 0) __CPROVER_assume(r >= 0.0); return r; }
+static inline double vf_c_pow(double x, double y) { if (y == 0.0 || x == 1.0) return 1.0;
+  if (x == 10.0 && y >= 1.0 && y <= 15.0 && y == (double)(int)y) {   /* exactly representable results are returned exactly (glibc pow is correctly rounded there) */
+    static const double p10[16] = {1, 10, 100, 1e3, 1e4, 1e5, 1e6, 1e7, 1e8, 1e9, 1e10, 1e11, 1e12, 1e13, 1e14, 1e15}; return p10[(int)y]; } if (isnan(x) || isnan(y)) return VF_NAN; double r = nondet_double(); if (x > 0) __CPROVER_assume(r >= 0.0); return r; }
 #define M_remainder(s,x,y) vf_c_remainder(x,y)
 #define M_remquo(s,x,y,q) vf_c_remquo(x,y,q)
 #define M_sin(s,x) vf_c_sin(x)
